@@ -82,7 +82,9 @@ pub fn c07(cx: &Ctx) -> (Vec<Violation>, Cover) {
                 reported = true;
                 break;
             }
-            if !alive && drops != 1 {
+            // the zero-sized body keeps its canary in a `Local`, which only exists once the system has run
+            let never_ran_zst = info.flavour == crate::program::Flavour::Zst && !a.runs.iter().any(|r| r.inst == inst && r.pos < q);
+            if !alive && drops != 1 && !(never_ran_zst && drops == 0) {
                 v.push(Violation::new(
                     "C07",
                     format!("C07/state-not-dropped/{mode}"),
